@@ -189,18 +189,37 @@ package stree
 //@   at exit: ghost t.vals = upd(t.vals, rank(t.compare, key), key)
 //@
 // popMinRight detaches the leftmost node of root.right and returns it; the ghost fields of the nodes on the way down
-// all lose that node and its key. Assumed here, checked by the bounded stand-in (the spine needs a bulk ghost update).
+// (the spine: the nodes of root.right's subtree that have the detached node below them) all lose that node and its
+// key, in one bulk ghost update per field. Proved: memory safety and termination of the descent, that the node returned
+// is the one holding the least key of the subtree (and its stored representative), the key set, node set, count and
+// representatives of what remains, and that nothing outside the subtree is touched. Assumed (clause `shape`): that what
+// remains is again a well-formed tree. 22 of its 27 conjuncts are discharged as well; the other five need "no other node
+// has the detached node as a child", an induction over the tree that the solvers do not do; the bounded stand-in
+// checks the shape on every tree of up to 7 nodes.
 //@ func popMinRight
 //@   ghost cmp func(T, T) int
 //@   requires root != nil && root.right != nil && treeOK(root, cmp)
-//@   ensures [assumed] goat: result != nil && old(result in root.right.desc) && result != root && result.left == nil && result.right == nil && result.X == old(result.X) && result.X == old(root.right.rep[rank(cmp, result.X)])
-//@   ensures [assumed] least: old(rank(cmp, result.X) in root.right.keys) && forall k int :: {old(k in root.right.keys)} old(k in root.right.keys) ==> rank(cmp, result.X) <= k
-//@   ensures [assumed] rest: treeOK(root.right, cmp) && (forall k int :: {inK(root.right, k)} inK(root.right, k) <==> old(k in root.right.keys) && k != rank(cmp, result.X))
-//@+      && (forall y ref :: {inD(root.right, y)} inD(root.right, y) <==> old(y in root.right.desc) && y != result)
-//@+      && (forall k int :: {root.right.rep[k]} inK(root.right, k) ==> root.right.rep[k] == old(root.right.rep[k]))
-//@   ensures [assumed] top: root.left == old(root.left) && root.X == old(root.X) && root.keys == old(root.keys) && root.desc == old(root.desc) && root.cnt == old(root.cnt) && root.rep == old(root.rep) && cntOf(root.right) == old(cntOf(root.right)) - 1
-//@   ensures [assumed] frame: forall y *node[T] :: {y.left} {y.right} {y.X} {y.keys} {y.desc} old(allocated(y)) && !old(y in root.right.desc) && y != root ==> sameNode(y)
+//@   ensures [C01,C04] goat: result != nil && old(result in root.right.desc) && result != root && result.left == nil && result.right == nil && result.X == old(result.X) && result.X == old(root.right.rep[rank(cmp, result.X)])
+//@   ensures [C01,C04] least: old(rank(cmp, result.X) in root.right.keys) && forall k int :: {old(k in root.right.keys)} old(k in root.right.keys) ==> rank(cmp, result.X) <= k
+//@   ensures [C01,C04] [assumed] shape: treeOK(root.right, cmp)
+//@   ensures [C01,C04] keys: forall k int :: {inK(root.right, k)} inK(root.right, k) <==> old(k in root.right.keys) && k != rank(cmp, result.X)
+//@   ensures [C01,C04] desc: forall y ref :: {inD(root.right, y)} inD(root.right, y) <==> old(y in root.right.desc) && y != result
+//@   ensures [C01,C04] reps: forall k int :: {root.right.rep[k]} inK(root.right, k) ==> root.right.rep[k] == old(root.right.rep[k])
+//@   ensures [C01,C04] top: root.left == old(root.left) && root.X == old(root.X) && root.keys == old(root.keys) && root.desc == old(root.desc) && root.cnt == old(root.cnt) && root.rep == old(root.rep) && cntOf(root.right) == old(cntOf(root.right)) - 1
+//@   ensures [C01,C04] frame: forall y *node[T] :: {y.left} {y.right} {y.X} {y.keys} {y.desc} old(allocated(y)) && !old(y in root.right.desc) && y != root ==> sameNode(y)
 //@   modifies every(root.left), every(root.right), every(root.keys), every(root.desc), every(root.cnt), every(root.rep)
+//@   at entry: ghost D0 = root.right.desc
+//@   at entry: ghost K0 = root.right.keys
+//@   loop 1: invariant [C01,C04] spine: goat != nil && goat in D0 && (par == root ==> goat == root.right) && (par != root ==> par in D0 && par.left == goat && par != goat)
+//@   loop 1: invariant [C01,C04] least: forall k int :: {k in K0} k in K0 ==> k in goat.keys || k > rank(cmp, goat.X)
+//@   loop 1: decreases cntOf(goat)
+//@   at loop 1 exit: ghost gk = rank(cmp, goat.X)
+//@   at loop 1 exit: assert [C01,C04] forall k int :: {k in K0} k in K0 ==> k >= gk
+//@   at loop 1 exit: assert [C01,C04] forall y *node[T] :: {y in D0} y in D0 && goat in y.desc && y != goat ==> gk in y.keys && gk < rank(cmp, y.X)
+//@   at loop 1 exit: assert [C01,C04] forall y *node[T] :: {y in D0} y in D0 && goat in y.desc && y != goat ==> y.left != nil && goat in y.left.desc && !(inK(y.right, gk)) && !(inD(y.right, goat))
+//@   at after "goat.right = nil": ghost every(root.keys) = lambda y *node[T] :: ite(y in D0 && goat in y.desc && y != goat, setdel(y.keys, gk), y.keys)
+//@   at after "goat.right = nil": ghost every(root.cnt) = lambda y *node[T] :: ite(y in D0 && goat in y.desc && y != goat, y.cnt - 1, y.cnt)
+//@   at after "goat.right = nil": ghost every(root.desc) = lambda y *node[T] :: ite(y in D0 && goat in y.desc && y != goat, setdel(y.desc, goat), y.desc)
 //@
 //@ func (*node).remove
 //@   role compare ord
@@ -253,6 +272,50 @@ package stree
 //@   modifies t.root, t.size, t.max, t.elems, every(t.root.left), every(t.root.right), every(t.root.X), every(t.root.keys), every(t.root.desc), every(t.root.cnt), every(t.root.rep), t.vals
 //@   at exit: ghost t.elems = setdel(t.elems, rank(t.compare, key))
 //@   call rewrite#1: cmp = t.compare
+//@
+// extract builds a search tree from a slice of pairwise different nodes sorted by strictly ascending rank (what New
+// passes after sorting and compacting): the ghost fields of every node of the slice are set on the way back up.
+// ni and ki are witnesses: the position in the slice of every node, respectively of every key, of the result.
+//@ func extract
+//@   ghost cmp func(T, T) int
+//@   ghostret ni imap[int], ki imap[int]
+//@   requires [C01] live: forall k int :: {nodes[k]} 0 <= k && k < len(nodes) ==> nodes[k] != nil && allocated(nodes[k])
+//@   requires [C01] apart: forall a int, b int :: {nodes[a], nodes[b]} 0 <= a && a < b && b < len(nodes) ==> nodes[a] != nodes[b]
+//@   requires [C01] sorted: forall a int, b int :: {nodes[a], nodes[b]} 0 <= a && a < b && b < len(nodes) ==> rank(cmp, nodes[a].X) < rank(cmp, nodes[b].X)
+//@   ensures  [C01] nil: (len(nodes) == 0) == (result == nil)
+//@   ensures  [C01] shape: treeOK(result, cmp) && cntOf(result) == len(nodes)
+//@   ensures  [C01] members: forall k int :: {nodes[k]} 0 <= k && k < len(nodes) ==> inD(result, nodes[k]) && inK(result, rank(cmp, nodes[k].X)) && result.rep[rank(cmp, nodes[k].X)] == nodes[k].X
+//@   ensures  [C01] onlyNodes: forall y ref :: {inD(result, y)} inD(result, y) ==> 0 <= ni[y] && ni[y] < len(nodes) && nodes[ni[y]] == y
+//@   ensures  [C01] onlyKeys: forall k int :: {inK(result, k)} inK(result, k) ==> 0 <= ki[k] && ki[k] < len(nodes) && rank(cmp, nodes[ki[k]].X) == k
+//@   ensures  [C01] values: forall y *node[T] :: {y.X} old(allocated(y)) ==> y.X == old(y.X)
+//@   ensures  [C01] frame: forall y *node[T] :: {y.left} {y.right} {y.keys} {y.desc} old(allocated(y)) && !inD(result, y) ==> sameNode(y)
+//@   ensures  [C01] slice: unchanged(elems(nodes))
+//@   modifies every(nodes[0].left), every(nodes[0].right), every(nodes[0].keys), every(nodes[0].desc), every(nodes[0].cnt), every(nodes[0].rep)
+//@   decreases len(nodes)
+//@   call extract#1: cmp = cmp
+//@   call extract#2: cmp = cmp
+//@   at return 1: ghost ni = lambda y int :: 0
+//@   at return 1: ghost ki = lambda k int :: 0
+//@   at after "root := nodes[mid]": assert [C01] forall j int :: {nodes[j]} mid < j && j < len(nodes) ==> nodes[j] == nodes[mid+1:][j - mid - 1]
+//@   at after "root := nodes[mid]": assert [C01] forall k int :: {nodes[mid+1:][k]} 0 <= k && k < len(nodes) - mid - 1 ==> nodes[mid+1:][k] == nodes[mid + 1 + k]
+//@   at after "root := nodes[mid]": assert [C01] forall k int :: {nodes[:mid][k]} {nodes[k]} 0 <= k && k < mid ==> nodes[:mid][k] == nodes[k]
+//@   at after "root.left = extract(nodes[:mid])": ghost niL = extract_ni
+//@   at after "root.left = extract(nodes[:mid])": ghost kiL = extract_ki
+//@   at after "root.left = extract(nodes[:mid])": assert [C01] forall y ref :: {inD(root.left, y)} inD(root.left, y) ==> 0 <= niL[y] && niL[y] < mid && nodes[niL[y]] == y
+//@   at after "root.left = extract(nodes[:mid])": assert [C01] forall k int :: {inK(root.left, k)} inK(root.left, k) ==> 0 <= kiL[k] && kiL[k] < mid && rank(cmp, nodes[kiL[k]].X) == k && k < rank(cmp, root.X)
+//@   at after "root.left = extract(nodes[:mid])": assert [C01] !inD(root.left, root)
+//@   at after "root.right = extract(nodes[mid+1:])": ghost niR = extract_ni
+//@   at after "root.right = extract(nodes[mid+1:])": ghost kiR = extract_ki
+//@   at after "root.right = extract(nodes[mid+1:])": assert [C01] forall y ref :: {inD(root.right, y)} inD(root.right, y) ==> 0 <= niR[y] && mid + 1 + niR[y] < len(nodes) && nodes[mid + 1 + niR[y]] == y
+//@   at after "root.right = extract(nodes[mid+1:])": assert [C01] forall k int :: {inK(root.right, k)} inK(root.right, k) ==> 0 <= kiR[k] && mid + 1 + kiR[k] < len(nodes) && rank(cmp, nodes[mid + 1 + kiR[k]].X) == k && k > rank(cmp, root.X)
+//@   at after "root.right = extract(nodes[mid+1:])": assert [C01] !inD(root.right, root) && (forall y ref :: {inD(root.left, y)} {inD(root.right, y)} !(inD(root.left, y) && inD(root.right, y)))
+//@   at after "root.right = extract(nodes[mid+1:])": assert [C01] treeOK(root.left, cmp)
+//@   at after "root.right = extract(nodes[mid+1:])": ghost root.keys = lambda k int :: k == rank(cmp, root.X) || inK(root.left, k) || inK(root.right, k)
+//@   at after "root.right = extract(nodes[mid+1:])": ghost root.desc = lambda y int :: y == root || inD(root.left, y) || inD(root.right, y)
+//@   at after "root.right = extract(nodes[mid+1:])": ghost root.cnt = 1 + cntOf(root.left) + cntOf(root.right)
+//@   at after "root.right = extract(nodes[mid+1:])": ghost root.rep = lambda k int :: ite(k == rank(cmp, root.X), root.X, ite(inK(root.left, k), root.left.rep[k], root.right.rep[k]))
+//@   at after "root.right = extract(nodes[mid+1:])": ghost ni = lambda y int :: ite(y == root, mid, ite(inD(root.left, y), niL[y], mid + 1 + niR[y]))
+//@   at after "root.right = extract(nodes[mid+1:])": ghost ki = lambda k int :: ite(k == rank(cmp, root.X), mid, ite(inK(root.left, k), kiL[k], mid + 1 + kiR[k]))
 //@
 // Clone. node.clone copies the subtree into fresh nodes with the same keys, counts and representatives; nothing that
 // existed before is touched, so the original and the copy share no node: a later change to either (whose contracts
